@@ -4,7 +4,7 @@
 Require Extraction.
 Require Import ExtrOcamlBasic.
 From Coq Require Import String List.
-From ClasticV Require Import Base.Sx Model.Stats Model.ChainIO Model.DispatchIO Model.MatchIO Model.WorldIO Model.StaticIO Model.MwIO.
+From ClasticV Require Import Base.Sx Model.Stats Model.ChainIO Model.DispatchIO Model.MatchIO Model.WorldIO Model.StaticIO Model.MwIO Model.CookieIO.
 Local Open Scope string_scope.
 
 Definition dispatch (tag : string) (s : sexp) : sexp :=
@@ -19,6 +19,7 @@ Definition dispatch (tag : string) (s : sexp) : sexp :=
   else if String.eqb tag "worldlab" then run_worldlab s
   else if String.eqb tag "staticlab" then run_staticlab s
   else if String.eqb tag "gziplab" then run_gziplab s
+  else if String.eqb tag "cookielab" then run_cookielab s
   else A "UNKNOWN-TAG".
 
 Extraction Blacklist String List Nat Bool.
